@@ -394,8 +394,8 @@ func Run(c *core.Ctx) {
 
 	rng := rand.New(rand.NewSource(c.Seed))
 	var cfgs []config
-	// defaults: every name x handler kinds x queue setting
-	for _, sn := range []string{"", "s", "s.t"} {
+	// defaults: every name x handler kinds x queue setting (names with characters that JSON escapes included)
+	for _, sn := range []string{"", "s", "s.t", `q"t`, `b\n`, "<&"} {
 		for k := 0; k < 4; k++ {
 			for _, q := range []struct {
 				set bool
